@@ -64,6 +64,18 @@ CHECKS["C12"] = ("proof",
     "machine-checked proof in Coq (error-position theorems over validated tables) + kernel-evaluated validators + "
     "real LR/GLR runs against an Earley viable-prefix oracle", "DESIGN.md §6 C12")
 
+CHECKS["C14"] = ("proof",
+    "Coq lemmas lossless_checker_meaning (what the checker lossless_b states: the concatenation of layout ++ token text "
+    "over the leaves equals the input up to the end of the last token) and skip_stores_whitespace_run (the model's "
+    "whitespace skipping stores exactly the measured run and advances by its length). lossless_b and, under whitespace "
+    "skipping, layout_is_ws_b are evaluated by the kernel on EVERY tree the real LR parser returns; with a Layout rule "
+    "every stored layout is parsed by the separately compiled Layout sub-grammar; each valid token sequence is "
+    "re-rendered with three different layouts and the real trees compared; the byte-level model (lexer, layout parser, "
+    "save/restore around the re-lex) equals the real outcome on every input. Partial: the round trip is not yet a "
+    "theorem about the model for all inputs (Proofs/RoundTrip.v), layout-insertion invariance is exploration.",
+    "machine-checked proof in Coq (checker meaning + skip lemmas) + kernel-evaluated lossless checker on every real "
+    "tree + byte-level model/implementation correspondence", "DESIGN.md §6 C14")
+
 PENDING_REASON = ("not yet claimed: check under construction (DESIGN.md §6 describes the planned theorem, validator and "
                   "correspondence); it is registered only once it runs end to end")
 
